@@ -63,5 +63,20 @@ class IfOp(Operation):
         return self.results
 
 
+class ConditionOp(Operation):
+    def __init__(self, cond, *args):
+        self._init_op([cond] + list(args), [], [])
+
+    @property
+    def condition(self):
+        return self.operands[0]
+
+
 class WhileOp(Operation):
-    pass
+    def __init__(self, arguments, result_types, before_region, after_region):
+        self._init_op(arguments, [None for _ in result_types], list(result_types))
+        self.before_region = before_region if isinstance(before_region, Region) else Region([Block(list(before_region))])
+        self.after_region = after_region if isinstance(after_region, Region) else Region([Block(list(after_region))])
+        self.regions = [self.before_region, self.after_region]
+        self.before_region.parent = self
+        self.after_region.parent = self
